@@ -597,7 +597,7 @@ func TestC19(t *testing.T) {
 	if d := rep.EnvInt("VERIF_DEPTH"); d > 0 {
 		depth0 = d
 	}
-	deadline := rep.Deadline(10*time.Minute, 3*time.Hour)
+	deadline := rep.Deadline(10*time.Minute, 45*time.Minute)
 	expired := func() bool { return time.Now().After(deadline) }
 	var gen func(prefix []lk.Op, alpha []lk.Op, d int)
 	gen = func(prefix []lk.Op, alpha []lk.Op, d int) {
